@@ -396,6 +396,10 @@ def run(ctx):
         c14a_census(ctx, tu, seen)
         if tu.find(A["dispatch"]):
             c14a_rules(ctx, tu)
+            from rules import protocol
+            # the `died` guard of the monitor's back-reference (above) is sound only if a notified monitor is
+            # marked as died on EVERY path of notify; otherwise its release writes into the freed object
+            protocol.report(ctx, tu, lambda r: r == "C13.d")
             n_new += c14b(ctx, tu)
             c14cd(ctx, tu)
             c14e(ctx, tu)
